@@ -23,7 +23,7 @@ def _kv_cases(draw, tier, with_order=False):
     kv = draw(gen.knot_vector(p, n, unclamped=uncl, micro=True))
     aff = None
     if draw(st.booleans()):
-        aff = draw(gen.affine())
+        aff = draw(gen.affine(("far",)))
         kv = gen.affine_kv(kv, aff[0], aff[1])
     prm = draw(st.lists(gen.param_desc(), min_size=1, max_size=5))
     c = {"p": p, "n": n, "kv": kv, "unclamped": uncl, "affine": aff, "params": prm}
